@@ -86,13 +86,19 @@ class Env:
         self.proxyauth.authenticated.clear()
 
     def dispatch(self, hook):
-        """synchronous equivalent of AddonManager.trigger_event: every addon in chain order, exceptions of an addon
-        are recorded (mitmproxy logs them and goes on)"""
+        """synchronous equivalent of AddonManager.trigger_event: every addon in chain order inside safecall():
+        an exception raised by a hook is logged and swallowed (recorded in addon_errors) and the next addon runs;
+        AddonHalt stops the chain; OptionsError propagates (as safecall re-raises it)."""
+        from mitmproxy import exceptions
         am = self.tctx.master.addons
         for a in self.chain:
             try:
                 am.invoke_addon_sync(a, hook)
-            except Exception as e:  # safecall() semantics
+            except exceptions.AddonHalt:
+                return
+            except exceptions.OptionsError:
+                raise
+            except Exception as e:  # safecall(): "Addon error: ..." is logged, processing continues
                 self.addon_errors.append((hook.name, e))
 
     def close(self):
